@@ -18,7 +18,7 @@ from ..core import rule, AnalysisError
 from ..engine import rx, cfg as cfgmod, flow
 from ..engine import pattern as P
 from ..engine.facts import dotted, const, src, walk_func, str_value, enclosing_stmt, ancestors
-from .common import calls, stmt_nodes, contains, pn, access_paths
+from .common import calls, stmt_nodes, contains, pn, access_paths, assigned_from
 
 CURSOR = ("match_position", "lineno", "matched_lineno", "matched_charpos")
 
@@ -117,7 +117,9 @@ def progress(ctx):
     forms = ["$e + 1 if $e == $s else $e", "$e if $e != $s else $e + 1", "$e if $e > $s else $e + 1", "max($e, $s + 1)", "max($s + 1, $e)", "$e + ($e == $s)"]
     adv = [f for f in forms if P.has(mr, "($s, $e) = $m.span()\n...\nself.match_position = " + f)]
     ctx.check(bool(adv), "advance", db.where(st[0]), "cursor update `%s` (with start/end = the match span) does not guarantee strict progress after a match (a zero-width match would loop forever) or skips text" % src(v), src(v))
-    ok = P.has(mr, "$m = $r.match(self.text, $p)\nif $m:\n    ...\n    self.match_position = $x\n    ...")
+    mvs_ = assigned_from(mr, "$r.match(self.text, $p)")
+    gd_ = [a_ for a_ in ancestors(st[0]) if isinstance(a_, ast.If)]
+    ok = bool(gd_) and isinstance(gd_[0].test, ast.Name) and gd_[0].test.id in mvs_ and any(contains(b_, st[0]) for b_ in gd_[0].body)
     ctx.check(ok, "advance-only-on-match", db.where(st[0]), "cursor moved without a match", "only when the regex matched")
     ctx.check(P.has(mr, "($s, $e) = $m.span()"), "span", db.where(mr), "start/end are not the match span", "start, end = match.span()")
     ok = P.has(mr, "$m = $r.match(self.text, self.match_position)") or P.has(mr, "$q = self.match_position\n...\n$m = $r.match(self.text, $q)")
@@ -141,6 +143,21 @@ def progress(ctx):
         ok = isinstance(ifn, ast.If) and isinstance(ifn.test, ast.Name) and ifn.test.id in mvars
         ctx.check(ok, "scan.continue@%d" % (conts.index(c) if c in conts else c.lineno - pl[0].lineno), db.where(c), "`continue` in parse_until_text not guarded by `if match`", "guarded by a match")
     ctx.check(isinstance(pl[0].body[-1], ast.Raise), "scan.fallthrough-raises", db.where(pl[0]), "parse_until_text can iterate without consuming", "loop body ends with raise")
+    # the end-of-text bound is the length of the text that is lexed: nothing replaces self.text after the length was taken
+    ps = db.func("lexer.Lexer.parse")
+    gp = cfgmod.function_cfg(ps)
+    tls = [s for s in walk_func(ps) if isinstance(s, ast.Assign) and any(dotted(t) == "self.textlength" for t in s.targets)]
+    stores = [s for s in walk_func(ps) if isinstance(s, (ast.Assign, ast.AugAssign)) and any(dotted(x) == "self.text" and isinstance(x.ctx, ast.Store) for t in (s.targets if isinstance(s, ast.Assign) else [s.target]) for x in ast.walk(t) if isinstance(x, ast.Attribute))]
+    ctx.require(tls and stores, "Lexer.parse: textlength / text assignments not found")
+    okl = all(P.matches(s.value, "len(self.text)") for s in tls)
+    late = None
+    for s in tls:
+        for a in gp.nodes_of(s):
+            for st in stores:
+                p_ = gp.path_avoiding(a, gp.nodes_of(st), [], kinds=("n",))
+                if p_:
+                    late = st
+    ctx.check(okl and late is None, "length-current", db.where(late) if late is not None else db.where(tls[0]), "self.text is replaced (`%s`) after self.textlength was taken: the loop stops at the stale length and the rest of the source is silently dropped (or lexing runs past the end)" % (src(late) if late is not None else ""), "textlength = len(self.text) after the last replacement of the text")
 
 
 def _stops_of_text(sub):
@@ -594,6 +611,13 @@ def line_count(ctx):
         else:
             ctx.ok("column.last-newline", db.where(mr), "column computation not in a recognised normal form (not decided)")
     cp = [s for s in walk_func(mr) if isinstance(s, ast.Assign) and dotted(s.targets[0]) == "self.matched_charpos"]
+    # the reported position is that of the last *successful* match: errors raised after a failed attempt still point at the construct
+    mvs_ = assigned_from(mr, "$r.match(self.text, $p)")
+    for attr in ("matched_lineno", "matched_charpos"):
+        for s_ in [x for x in walk_func(mr) if isinstance(x, ast.Assign) and dotted(x.targets[0]) == "self." + attr]:
+            gd_ = [a_ for a_ in ancestors(s_) if isinstance(a_, ast.If)]
+            okm = any(isinstance(g_.test, ast.Name) and g_.test.id in mvs_ and any(contains(b_, s_) for b_ in g_.body) for g_ in gd_)
+            ctx.check(okm, "position-only-on-match:" + attr, db.where(s_), "self.%s is updated by a failed match attempt as well: an error raised after the attempt (unclosed <%%text>) is reported at the cursor, not where the construct began" % attr, "updated only when the regex matched")
     ctx.check(bool(cp) and bool(mp) and isinstance(cp[0].value, ast.BinOp) and isinstance(cp[0].value.op, ast.Sub) and src(cp[0].value.left) == src(mp[0].targets[0]), "column", db.where(mr), "column is `%s`" % (src(cp[0].value) if cp else None), "column = old cursor - position of the previous newline")
 
 
@@ -841,3 +865,16 @@ def text_stops_cover(ctx):
             ctx.violation("cover:lexer.Lexer.%s#begins-with:%s" % (m, cls), db.where(c),
                           "%s can begin with %r at a line position inside running text, but the text regex has no stop there: the construct is copied to the output as text there, while the same line directly after another directive is recognised" % (m, wit), witness=wit)
     ctx.require(n >= (6 if ctx.prop != "C03" else 2), "only %d matchers before match_text analysed" % n)
+
+
+@rule("C01.match-result-checked", min_instances=1, props=["C11"])
+def match_result_checked(ctx):
+    """in the lexer and the modules it drives, a regex match result is dereferenced only where it is known to be a match: input that does not match ends in a Mako exception or the next matcher, never in AttributeError on None"""
+    db = ctx.db
+    from .common import unguarded_match_uses
+    bad, n = unguarded_match_uses(db, ["lexer", "parsetree", "ast", "pygen", "pyparser", "codegen"])
+    ctx.require(n >= 25, "only %d uses of regex match results found" % n)
+    for q, u, name in bad:
+        ctx.violation("unchecked:%s:%s.%s" % (q, "match", u.attr), db.where(u), "`%s` dereferences the result of a regex match that is None when the text does not match (no test of `%s` guards this use): such input raises AttributeError instead of a Mako exception" % (src(enclosing_stmt(u))[:80], name))
+    if not bad:
+        ctx.ok("all-checked", "mako/lexer.py, parsetree.py, ast.py, pygen.py, pyparser.py, codegen.py", "%d uses of match results, each guarded by a test of the match" % n)
